@@ -184,6 +184,9 @@ INS_CELLS = [
     ("ins-edge-peaked-noreparam-clip", "G2e", {"reparameterisation": None, "clip": True, "max_iteration": 8}, None),
     ("ins-edge-peaked-logit-maf", "G2e", {"flow_config": {"ftype": "maf"}, "max_iteration": 8}, None),
     ("ins-gw5", "GW5", {"nlive": 400, "min_samples": 100, "max_iteration": 8}, None),
+    # likelihood exactly zero over ~80 % of the prior, training-set floor close to nlive
+    ("ins-zero-likelihood-region-min-samples", "G2h", {"min_samples": 150}, None),
+    ("ins-zero-likelihood-region-strict", "G2h", {"min_samples": 120, "strict_threshold": True, "min_remove": 10}, None),
     # numerically extreme likelihood magnitudes: exp(logL + logW) under- / overflows in float64
     ("ins-logL-minus-2000-Zerr", "G2o", {"stopping_criterion": "Z_err", "tolerance": 1.03, "max_iteration": 15}, None),
     ("ins-logL-minus-2000-default", "G2o", {}, None),
